@@ -189,6 +189,12 @@ func c04Bases(t interface{ Fatalf(string, ...any) }) []c04Doc {
 	}
 	add("handwritten-spdx-2.3", []byte(baseSPDX), formats.SPDX23JSON)
 	add("handwritten-cdx-1.5", []byte(baseCDX), formats.CDX15JSON)
+	// the same documents declaring other versions the third-party decoders accept (down-level input reaches
+	// conversion code that the current-version path never runs); parsed with the format forced as well
+	add("handwritten-spdx-declared-2.2", []byte(strings.Replace(baseSPDX, `"SPDX-2.3"`, `"SPDX-2.2"`, 1)), formats.SPDX23JSON)
+	add("handwritten-spdx-declared-2.1", []byte(strings.Replace(baseSPDX, `"SPDX-2.3"`, `"SPDX-2.1"`, 1)), formats.SPDX23JSON)
+	add("handwritten-cdx-declared-1.3", []byte(strings.Replace(baseCDX, `"specVersion": "1.5"`, `"specVersion": "1.3"`, 1)), formats.CDX13JSON)
+	add("handwritten-cdx-declared-1.1", []byte(strings.Replace(baseCDX, `"specVersion": "1.5"`, `"specVersion": "1.1"`, 1)), formats.CDX11JSON)
 	for _, p := range []struct {
 		path string
 		own  formats.Format
@@ -201,7 +207,7 @@ func c04Bases(t interface{ Fatalf(string, ...any) }) []c04Doc {
 	}
 	// the base documents themselves must parse into non-empty graphs, otherwise the faults test nothing
 	for _, d := range docs {
-		doc, err := readDoc(d.Root.Encode(hx.EncOpts{}))
+		doc, err := parseAs(d.Root.Encode(hx.EncOpts{}), d.Own)
 		if err != nil || len(doc.NodeList.Nodes) < 2 {
 			t.Fatalf("HARNESS-SELFTEST base document %s: err=%v", d.Name, err)
 		}
